@@ -22,7 +22,7 @@ OUTSIDE = 'longer signals, more than 3 sifting iterations per IMF, float roundin
 ASSUMPTIONS = ['rilling_stop replaced by its documented formula in the rilling configurations (compositional cut; the real '
                'function is proved equivalent to the formula in the C04 unit clause); replays use the real function',
                'sd stop: the threshold is a symbolic real in (0,1); nonlinear queries may end unknown (counted inconclusive)']
-REQUIRED_CLASSES = ['two-or-more-imfs', 'extrema-vanish-after-iteration', 'residual-only', 'ended-of-own-accord', 'integer-input']
+REQUIRED_CLASSES = ['two-or-more-imfs', 'extrema-vanish-after-iteration', 'residual-only', 'ended-of-own-accord', 'integer-input', 'generous-cap-not-reached']
 EXPECTED_LABELS = ['never-raises', 'additive', 'residual-non-oscillatory', 'shape']
 BUDGET_S = {'quick': 170, 'thorough': 900}
 OPTS = {'quick': {'sample_every': 9}, 'thorough': {'sample_every': 9, 'timeout_ms': 20000}}
@@ -47,6 +47,9 @@ def configs(tier):
         # integer-dtype recording (raw counts): residuals and components are real valued whatever the input dtype
         ii = cfg(6, 'fixed1', '1', 'splrep', 2)
         out.append((ii[0] + '-int-input', dict(ii[1], int_input=True)))
+        # a generous cap that is never reached must not cut anything short
+        gc = cfg(6, 'fixed1', '1', 'splrep', 2)
+        out.append((gc[0] + '-cap5', dict(gc[1], cap=5)))
     else:
         out.append(cfg(7, 'fixed1', '1', 'splrep', 2))
         out.append(cfg(7, 'fixed2', '1/2', 'splrep', 2))
@@ -57,6 +60,9 @@ def configs(tier):
         for n, stop in ((6, 'fixed1'), (6, 'fixed2'), (7, 'fixed1')):
             ii = cfg(n, stop, '1', 'splrep', 2)
             out.append((ii[0] + '-int-input', dict(ii[1], int_input=True)))
+        for n, stop, cap in ((6, 'fixed1', 5), (6, 'fixed2', 8), (7, 'fixed1', 6), (6, 'rilling', 5)):
+            gc = cfg(n, stop, '1', 'splrep', 2)
+            out.append((gc[0] + '-cap%d' % cap, dict(gc[1], cap=cap)))
         for step, w in (('1', 2), ('1/2', 1)):
             c = cfg(6, 'sd', step, 'splrep', w)
             c[1]['_budget_s'] = 150
@@ -74,7 +80,9 @@ def harness(h):
     imf_opts, env_opts, ext_opts = common.sift_options(h, h.params)
     with common.rilling_model(h, enabled=h.params['stop'] == 'rilling'), common.trace_sift(max_gni=8) as tr:
         try:
-            imf = S.sift(X, imf_opts=imf_opts, envelope_opts=env_opts, extrema_opts=ext_opts)
+            cap = h.params.get('cap')
+            extra = {} if cap is None else {'max_imfs': cap}
+            imf = S.sift(X, imf_opts=imf_opts, envelope_opts=env_opts, extrema_opts=ext_opts, **extra)
         except EMDSiftCovergeError:
             h.note('convergence-error')
             return
@@ -88,6 +96,11 @@ def harness(h):
         return
     h.observe('imf', imf)
     K = imf.shape[1]
+    if cap is not None:
+        if K >= cap:
+            h.note('cut-short-by-cap')
+            return
+        h.note('generous-cap-not-reached')
     h.note('two-or-more-imfs' if K >= 2 else 'residual-only')
     last = imf[:, -1]
     if bool(common.abs_sum(last) < SIFT_THRESH):
